@@ -10,12 +10,14 @@ import (
 
 	"github.com/evolbioinfo/goalign/align"
 	"github.com/evolbioinfo/goalign/distance/dna"
+	"github.com/evolbioinfo/goalign/distance/protein"
 	"github.com/evolbioinfo/goalign/io/clustal"
 	"github.com/evolbioinfo/goalign/io/fasta"
 	"github.com/evolbioinfo/goalign/io/nexus"
 	"github.com/evolbioinfo/goalign/io/paml"
 	"github.com/evolbioinfo/goalign/io/phylip"
 	"github.com/evolbioinfo/goalign/io/stockholm"
+	pmodels "github.com/evolbioinfo/goalign/models/protein"
 )
 
 func snapshot(al align.Alignment) string {
@@ -131,6 +133,33 @@ func init() {
 					m, err := dna.Model(mname, false)
 					if err == nil {
 						dna.DistMatrix(al, nil, m, -1, -1, -1, -1, false, 1.0, 2)
+					}
+				}
+			}
+			if al.Alphabet() == align.AMINOACIDS {
+				// protein distances: model frequencies and frequencies counted on the alignment, with and without gap removal
+				L := al.Length()
+				for _, mf := range []bool{true, false} {
+					for _, rg := range []bool{false, true} {
+						pm, err := protein.NewProtDistModel(pmodels.ModelStringToInt("lg"), mf, false, 1.0, rg)
+						if err != nil {
+							continue
+						}
+						if mf {
+							err = pm.InitModel(nil, nil)
+						} else {
+							err = pm.InitModel(al, nil)
+						}
+						if err != nil {
+							continue
+						}
+						pm.MLDist(al, nil)
+						w := make([]float64, L)
+						sel := make([]bool, L)
+						for i := range w {
+							w[i], sel[i] = 1, true
+						}
+						pm.JC69Dist(al, w, sel)
 					}
 				}
 			}
